@@ -100,6 +100,20 @@ CHECKS = {
               "globals after every operation vs. the model, and the observed pair's stream and reconstruction vs. a fresh process."),
         note=TB_COMMON + "That the model's `view` is everything the kernels read is checked by stream equality on explored histories, not derived from the C source. Time-step globals (sz_tsc) are C17's subject.",
         technique="Coq proof (invariant by induction over operation histories) + source-fact obligations + history differential against a fresh process"),
+    "C17": dict(
+        category="proof", design_ref="DESIGN.md §4 C17",
+        text=("Time-step compression as two state machines (compressor and decompressor each keeping the previous step's reconstruction) over a pair of "
+              "kernels of the generic prediction/quantisation codec: snapshot (spatial) and temporal (element i predicted from element i of the history). "
+              "Proved without axioms for every pair of kernels meeting the two codec obligations, every step sequence, every schedule and every "
+              "data-/size-dependent decision (tiny, constant, verbatim): the decompressor fed the step streams reproduces every reconstruction and ends "
+              "each step with the compressor's history (lock-step, by induction over the steps), and every decoded step is within that step's own bound "
+              "(no accumulation). For the float and double instances (Flocq arithmetic on bit patterns; the temporal kernels transcribed from "
+              "sz_{float,double}_ts.c) the same theorems hold for every run on which the model's evaluated flags hold, and the temporal quantisers are proved "
+              "to emit only re-checked codes. The pre-repair behaviour (verbatim step) is a refuted statement with a witness. On every run: compressor "
+              "and a forked decompressor process on random step sequences and schedules; history digests and bounds checked after every step; 1-D "
+              "variables compared bit for bit with the model, schedule decisions with the model's resolve function."),
+        note=TB_COMMON + "Multi-dimensional snapshot kernels are not transcribed (oracle only). Axioms of the float/double instance theorems: Flocq's use of the standard library's real numbers (ClassicalDedekindReals.sig_not_dec, sig_forall_dec, functional_extensionality_dep, Classical_Prop.classic). Built with -DHAVE_TIMECMPR.",
+        technique="Coq proof (lock-step and per-step bound by induction over step sequences, generic in the kernels) + bit-exact model/implementation comparison + two-process differential"),
     "C04": dict(
         category="proof", design_ref="DESIGN.md §4 C04",
         text=("Proved: every byte of the parameter block (shared by all stream kinds) is assigned for every bound mode the writer handles, and its "
